@@ -164,3 +164,13 @@ M("c14-stopsubscribe-ttl-1", "C14", "break", (S, "        self._send_subscribe(0
 M("c14-grouping-lost", "C14", "break", (S, "            endpoint_entries[endpoint].append(eventgroup)", "            endpoint_entries[self.sd.default_addr].append(eventgroup)"))
 M("c14-endpoint-protocol-fixed", "C14", "break", (C, "                address=naddr, l4proto=protocol, port=nport\n            )\n        elif", "                address=naddr, l4proto=someip.header.L4Protocols.UDP, port=nport\n            )\n        elif"))
 M("c14-two-endpoint-options", "C14", "break", (C, "            options_1=(endpoint_option,),", "            options_1=(endpoint_option, endpoint_option),"))
+
+# ---------------------------------------------------------------- C15
+M("c15-reuse-done-collector", "C15", "break", (S, "        if queue is None or queue.done:", "        if queue is None:"))
+M("c15-done-after-callback", "C15", "break", (S, "        self.done = True\n        self.callback(self.data, *self.args, **self.kwargs)", "        self.callback(self.data, *self.args, **self.kwargs)\n        self.done = True"))
+M("c15-collector-remote-none", "C15", "break", (S, "                self.timings.SEND_COLLECTION_TIMEOUT, self.sd.send_sd, remote=remote\n            )", "                self.timings.SEND_COLLECTION_TIMEOUT, self.sd.send_sd, remote=None\n            )"))
+M("c15-filed-under-none", "C15", "break", (S, "            self.send_queues[remote] = queue = SendCollector(", "            self.send_queues[None] = queue = SendCollector("))
+M("c15-flush-sorted", "C15", "break", (S, "        self.callback(self.data, *self.args, **self.kwargs)", "        self.callback(sorted(self.data, key=str), *self.args, **self.kwargs)"))
+M("c15-bypass-falls-through", "C15", "break", (S, "            self.sd.send_sd([entry], remote=remote)\n            return", "            self.sd.send_sd([entry], remote=remote)"))
+M("c15-instance-bypasses-queue", "C15", "break", (S, "        self.announcer.queue_send(entry, remote=remote)", "        self.announcer.sd.send_sd([entry], remote=remote)"))
+M("c15-timer-doubled", "C15", "break", (S, "            timeout, self._handle_timeout\n        )", "            timeout * 2, self._handle_timeout\n        )"))
